@@ -6,6 +6,7 @@ use std::panic::catch_unwind;
 
 mod statuslist;
 mod jws;
+mod sdjwt;
 mod ts;
 mod cred;
 mod did;
@@ -82,6 +83,7 @@ fn main() {
     "credential_validation" => cred::credential_validation(&cex),
     "presentation_validation" => cred::presentation_validation(&cex),
     "timestamp" => ts::timestamp(&cex),
+    "sd_jwt" => sdjwt::sd_jwt(&cex),
     "kani" => kani_replay(&cex),
     "selftest" => selftest(),
     _ => Err(format!("unknown scenario {scenario}")),
